@@ -144,6 +144,9 @@ package lnwire
 //@   bounds-safe
 //@   site call DecodeWithParsedTypesP2P: assert arg(0) == retn(NewStream, 0) && retn(NewStream, 1) == nil && arg(1) == r
 //@   site call NewStream: assert arg(0) == records
+//@   // every answer comes from the length-capped decoder (no path around the per-record bound)
+//@   ensures retn(NewStream, 1) == nil ==> called(DecodeWithParsedTypesP2P) && result0 == retn(DecodeWithParsedTypesP2P, 0) && result1 == retn(DecodeWithParsedTypesP2P, 1)
+//@   ensures called(NewStream)
 //@
 //@ func (e *ExtraOpaqueData) ExtractRecords
 //@   props C10
@@ -373,15 +376,33 @@ package lnwire
 //@   loop * havoc
 //@   bounds-safe
 //@
+//@ // ---- what is taken out of the raw extension: only a record that a known producer parsed completely (present in the type map with a nil
+//@ // ---- remainder) is removed; an unknown record - also one of length zero, whose value is empty but not nil - stays in the raw data (or moves
+//@ // ---- to the custom records when its type is in the custom range) and is reproduced on encode
+//@ // assumed on the tlv dependency (a getter): the type of a record is the field it was built with
+//@ extern func (*tlv.Record) Type
+//@   ensures result == f.typ
+//@
 //@ func ParseAndExtractCustomRecords
 //@   props C10
 //@   loop * havoc
 //@   bounds-safe
+//@   site call ExtractRecords: assert arg(1) == knownRecords
+//@   site call delete nth 0 as parsed-known-only: assert arg(0) == retn(ExtractRecords, 0) && has(arg(0), arg(1)) && arg(0)[arg(1)] == nil
+//@   site call delete nth 1 as custom-range-only: assert arg(0) == retn(ExtractRecords, 0) && arg(1) >= MinCustomRecordsTlvType && arg(1) == k
+//@   site mapupdate customRecordsTlvMap: assert arg(key) >= MinCustomRecordsTlvType && arg(key) == k && arg(val) == v
+//@   site call NewCustomRecords: assert arg(0) == customRecordsTlvMap
+//@   site call NewExtraOpaqueData: assert arg(0) == retn(ExtractRecords, 0) && retn(NewCustomRecords, 1) == nil
+//@   ensures result3 == nil ==> retn(ExtractRecords, 1) == nil && result0 == retn(NewCustomRecords, 0) && retn(NewExtraOpaqueData, 1) == nil
 //@
 //@ func ParseAndExtractExtraData
 //@   props C10
 //@   loop * havoc
 //@   bounds-safe
+//@   site call ExtractRecords: assert arg(1) == knownRecords
+//@   site call delete as parsed-known-only: assert arg(0) == retn(ExtractRecords, 0) && has(arg(0), arg(1)) && arg(0)[arg(1)] == nil
+//@   site call NewExtraOpaqueData: assert arg(0) == retn(ExtractRecords, 0)
+//@   ensures result2 == nil ==> retn(ExtractRecords, 1) == nil && retn(NewExtraOpaqueData, 1) == nil
 //@
 //@ func (fv *RawFeatureVector) ValidateUpdate
 //@   props C10
